@@ -219,7 +219,31 @@ pub fn run(report: &mut Report, seed: u64, cases: u64) {
         c.w_optional += 10;
         c
     });
-    run_stream(report, seed, &scfg, handle);
+    let mut rng = crate::rng::Rng::new(seed ^ 0xc21c21);
+    run_stream(report, seed, &scfg, |rep, ctx| {
+        handle(rep, ctx);
+        // not-valid-by-construction sub-stream (filters re-targeted, tag operands swapped, literal kinds of
+        // explicit edge arguments confused): whatever the frontend accepts is executed under the same
+        // contract monitor - the adapter must still only see what the contract promises
+        if let Some((q2, compiled, args)) = crate::checks::c09::confused_compiled(ctx, &mut rng) {
+            if !crate::adapter::cost_probe(&ctx.model, &ctx.ds, &compiled, &args, 300_000) {
+                return;
+            }
+            rep.count("confused_accepted_and_monitored");
+            let case = Case { model: (*ctx.model).clone(), ds: (*ctx.ds).clone(), query: q2, args };
+            if let Ok(cx) = ctx_from_case(&case) {
+                let o = check_ctx(&cx);
+                rep.add("adapter_calls_checked", o.calls);
+                if let Some((kind, detail)) = o.err {
+                    let sig = format!("C21:{kind}");
+                    if !rep.already_reported(&sig) {
+                        let small = shrink(&case, &sig, 300, signature_of_case);
+                        rep.violation(witness_from_case("C21", "c21", &sig, &detail, rep.seed, ctx.index, &small));
+                    }
+                }
+            }
+        }
+    });
 }
 
 pub fn replay(case: &Case) -> Result<Option<(String, String)>, String> {
